@@ -1362,7 +1362,13 @@ func TestVerifC13Mutating(t *testing.T) {
 		if vresp.Allowed {
 			c.Count("m_revalidation_admitted", 1)
 			if len(brokenA) > 0 && len(brokenB) > 0 {
-				c.Fail("C13/revalidate/"+brokenA[0], "the validating handler admits the mutated pod although it breaks the protocol: %v (QoS=%s class=%s)\nmutated=%s", brokenA, qos, pa, raw1)
+				sig := "C13/revalidate/" + brokenA[0]
+				if brokenA[0] == "lsx-cpu-not-whole" && c13PodLevelCPUDecFormWithOverhead(pod1) {
+					// same narrow attribution as in the validating unit (aliased *inf.Dec of a >18-digit
+					// pod-level cpu request: the overhead is added into the pod object and counted twice)
+					sig += "/pod-level-cpu-over-18-digits-with-overhead"
+				}
+				c.Fail(sig, "the validating handler admits the mutated pod although it breaks the protocol: %v (QoS=%s class=%s)\nmutated=%s", brokenA, qos, pa, raw1)
 			}
 		} else {
 			c.Count("m_revalidation_denied", 1)
@@ -1445,6 +1451,30 @@ func TestVerifC13Mutating(t *testing.T) {
 				"annotation": pod1.Annotations[c13AnnoKey]})
 		}
 	})
+}
+
+// c13PodLevelCPUDecFormWithOverhead: the pod states a pod-level cpu request whose canonical string
+// has more than 18 digits (beyond the int64 fast path of resource.ParseQuantity) and has a cpu overhead.
+func c13PodLevelCPUDecFormWithOverhead(pod *corev1.Pod) bool {
+	if pod.Spec.Resources == nil {
+		return false
+	}
+	q, ok := pod.Spec.Resources.Requests[corev1.ResourceCPU]
+	if !ok {
+		return false
+	}
+	if o, ok := pod.Spec.Overhead[corev1.ResourceCPU]; !ok || c13Rat(o).Sign() == 0 {
+		return false
+	}
+	digits := 0
+	for _, ch := range q.String() {
+		if ch >= '0' && ch <= '9' {
+			digits++
+		} else if ch != '.' && ch != '-' && ch != '+' {
+			break
+		}
+	}
+	return digits > 18
 }
 
 // c13Shape: an abstract description of the pod's resource shape (evidence only).
